@@ -262,13 +262,42 @@ class Sub:
         self.pieces = {"quick": pieces_quick, "thorough": pieces_thorough}
         self.budget = {"quick": budget_quick, "thorough": budget_thorough}
 
+    def execute(self, case, st):
+        """run one case under the ambient state of the numeric stack that belongs to it (see `ambient`)"""
+        with ambient(case, st):
+            return self.run(case, st)
+
     def replay(self, case):
         st = Stats(self.name, 0)
         st.begin(case)
         try:
-            self.run(case, st)
+            self.execute(case, st)
         finally:
             cleanup_scratch()
+
+
+def ambient(case, st=None):
+    """The state of the numeric stack a case runs under: a results must not depend on np.errstate, NumPy print options or the warnings
+    filter.  The state is a function of the case's content (not a separate draw), so a replay reproduces it."""
+    import contextlib
+    import numpy as np
+
+    h = int(hashlib.sha256(json.dumps(case, sort_keys=True, default=str).encode()).hexdigest(), 16) % 6
+    stack = contextlib.ExitStack()
+    if h == 1:
+        stack.enter_context(np.errstate(all="ignore"))
+    elif h == 2:
+        stack.enter_context(warnings.catch_warnings())
+        warnings.simplefilter("ignore")
+        stack.enter_context(np.errstate(all="warn"))
+    elif h == 3:
+        stack.enter_context(np.printoptions(precision=2, suppress=True, threshold=3, edgeitems=1, floatmode="fixed"))
+    elif h == 4:
+        stack.enter_context(np.errstate(all="ignore"))
+        stack.enter_context(np.printoptions(precision=1, sign="+", linewidth=20))
+    if st is not None and h in (1, 2, 3, 4):
+        st.label("ambient_" + {1: "errstate_ignore", 2: "errstate_warn", 3: "printoptions", 4: "errstate+printoptions"}[h])
+    return stack
 
 
 class MachineSub(Sub):
@@ -460,12 +489,12 @@ def _run_job(prop_id, sub, tier, piece, npieces, seed0):
                     if fid is not None and fid in opened:
                         st.excluded_known[fid] = st.excluded_known.get(fid, 0) + 1
                         try:
-                            sub.run(case, st)
+                            sub.execute(case, st)
                         except Violation:
                             st.known_still_failing[fid] = st.known_still_failing.get(fid, 0) + 1
                         return
                     try:
-                        sub.run(case, st)
+                        sub.execute(case, st)
                     except Violation as e:
                         st.failure = (case, str(e))
                         raise
